@@ -605,8 +605,14 @@ def desugar_adaptor_next(rec, prog, stats):
             continue
         itl, fl = it_op["place"]["local"], f_op["place"]["local"]
         ity, fty = rec["locals"][itl], rec["locals"][fl]
-        if fty.get("k") != "closure" or ity.get("k") != "adt" or ity.get("path") not in GENERIC_NEXT or fty["path"] not in prog.fns:
+        inner_next = GENERIC_NEXT.get(ity.get("path")) if ity.get("k") == "adt" else None
+        if inner_next is None and kind.endswith("::Map") and ity.get("k") == "adt" and ity.get("path") in ADAPTOR_NEXT:
+            # map over filter / filter_map / map: the inner adaptor's next is expanded in turn
+            inner_next = ADAPTOR_NEXT[ity["path"]][0]
+        if fty.get("k") != "closure" or inner_next is None or fty["path"] not in prog.fns:
             continue
+        if ity["path"] in ADAPTOR_NEXT:
+            rec.setdefault("_expand_filter", set()).add(itl)
         cl = prog.fns[fty["path"]].rec
         if len(cl["locals"]) < 3:
             continue
@@ -647,7 +653,7 @@ def desugar_adaptor_next(rec, prog, stats):
         nb = len(rec["blocks"])
         SW, NONE, SOME, SW2, HIT, UNR = nb, nb + 1, nb + 2, nb + 3, nb + 4, nb + 5
         blk["stmts"] = list(blk["stmts"]) + [{"k": "assign", "place": {"local": r, "proj": []}, "rv": {"k": "ref", "mut": True, "place": {"local": itl, "proj": []}}, "line": line}]
-        blk["term"] = {"k": "call", "callee": "core::iter::Iterator::next", "resolved": GENERIC_NEXT[ity["path"]], "cargs": [ity], "rargs": ity.get("args", []),
+        blk["term"] = {"k": "call", "callee": "core::iter::Iterator::next", "resolved": inner_next, "cargs": [ity], "rargs": ity.get("args", []),
                        "args": [{"k": "move", "place": {"local": r, "proj": []}}], "dest": {"local": x, "proj": []}, "target": SW, "line": line}
         rec["blocks"].append({"stmts": [{"k": "assign", "place": {"local": dx, "proj": []}, "rv": {"k": "discr", "place": {"local": x, "proj": []}}, "line": line}],
                               "term": {"k": "switch", "discr": {"k": "move", "place": {"local": dx, "proj": []}}, "dty": isz, "arms": [[0, NONE], [1, SOME]], "otherwise": UNR, "line": line}})
@@ -1855,6 +1861,62 @@ def desugar(rec, prog, stats):
                 rec["blocks"].append({"stmts": [], "term": {"k": "unreachable"}})
                 blk["term"] = {"k": "goto", "target": H}
                 stats.setdefault(rec["path"], []).append("desugar:find_map")
+                changed = True
+                continue
+        if c == "core::iter::Iterator::find" and len(t["args"]) == 2 and not t["dest"]["proj"] and t.get("cargs") \
+                and all(a["k"] in ("move", "copy") and not a["place"]["proj"] for a in t["args"]) \
+                and rec["locals"][t["args"][1]["place"]["local"]].get("k") == "closure" and (_closure_arg_ty(prog, rec, t["args"][1]) or {}).get("k") == "ref" \
+                and rec["locals"][t["args"][0]["place"]["local"]].get("k") == "ref" and rec["locals"][t["args"][0]["place"]["local"]]["to"].get("k") == "adt" \
+                and rec["locals"][t["dest"]["local"]].get("path") == "core::option::Option":
+            # it.find(p)  ->  loop { match it.next() { None => break None, Some(x) => if p(&x) { break Some(x) } } }
+            it_op, f_op = t["args"]
+            itl = it_op["place"]["local"]
+            ity = rec["locals"][itl]["to"]
+            aty = _closure_arg_ty(prog, rec, f_op)
+            item_ty = aty["to"]
+            fl = f_op["place"]["local"]
+            fty = rec["locals"][fl]
+            dty = rec["locals"][t["dest"]["local"]]
+            nextfn = ITER_NEXT_OF.get(ity["path"]) or GENERIC_NEXT.get(ity["path"]) or (ADAPTOR_NEXT.get(ity["path"]) or (None,))[0]
+            if nextfn is not None:
+                line = t.get("line")
+                opt_ty = {"k": "adt", "path": "core::option::Option", "args": [item_ty], "s": "core::option::Option<T>"}
+                isz = {"k": "int", "bits": 64, "name": "isize"}
+                n = len(rec["locals"])
+                rec["locals"].extend([{"k": "ref", "mut": True, "to": ity}, opt_ty, isz, item_ty, aty, {"k": "tuple", "elems": [aty]}, {"k": "ref", "mut": True, "to": fty}, {"k": "bool"}])
+                r, nx, d, item, iref, tup, cr, rr = range(n, n + 8)
+                nb = len(rec["blocks"])
+                H, S, N, B, C, E, U = nb, nb + 1, nb + 2, nb + 3, nb + 4, nb + 5, nb + 6
+                it_place = {"local": itl, "proj": [{"k": "deref"}]}
+                dfn = _single_def(rec, itl)
+                if dfn is not None and dfn[0] == "stmt" and dfn[3]["rv"]["k"] == "ref" and not dfn[3]["rv"]["place"]["proj"]:
+                    it_place = {"local": dfn[3]["rv"]["place"]["local"], "proj": []}
+                rec["blocks"].append({"stmts": [{"k": "assign", "place": {"local": r, "proj": []}, "rv": {"k": "ref", "mut": True, "place": it_place}, "line": line}],
+                                      "term": {"k": "call", "callee": "core::iter::Iterator::next", "resolved": nextfn, "cargs": [ity], "rargs": ity.get("args") or [],
+                                               "args": [{"k": "move", "place": {"local": r, "proj": []}}], "dest": {"local": nx, "proj": []}, "target": S, "line": line}})
+                rec["blocks"].append({"stmts": [{"k": "assign", "place": {"local": d, "proj": []}, "rv": {"k": "discr", "place": {"local": nx, "proj": []}}, "line": line}],
+                                      "term": {"k": "switch", "discr": {"k": "move", "place": {"local": d, "proj": []}}, "dty": isz, "arms": [[0, N], [1, B]], "otherwise": U, "line": line}})
+                rec["blocks"].append({"stmts": [{"k": "assign", "place": copy.deepcopy(t["dest"]),
+                                                 "rv": {"k": "aggregate", "agg": "adt", "path": "core::option::Option", "variant": 0, "vname": "None", "args": dty.get("args", []),
+                                                        "is_enum": True, "ops": []}, "line": line}], "term": {"k": "goto", "target": t["target"]}})
+                rec["blocks"].append({"stmts": [
+                    {"k": "assign", "place": {"local": item, "proj": []},
+                     "rv": {"k": "use", "op": {"k": "move", "place": {"local": nx, "proj": [{"k": "downcast", "variant": 1, "name": "Some"}, {"k": "field", "i": 0, "ty": item_ty}]}}}, "line": line},
+                    {"k": "assign", "place": {"local": iref, "proj": []}, "rv": {"k": "ref", "mut": False, "place": {"local": item, "proj": []}}, "line": line},
+                    {"k": "assign", "place": {"local": tup, "proj": []}, "rv": {"k": "aggregate", "agg": "tuple", "ops": [{"k": "move", "place": {"local": iref, "proj": []}}]}, "line": line},
+                    {"k": "assign", "place": {"local": cr, "proj": []}, "rv": {"k": "ref", "mut": True, "place": {"local": fl, "proj": []}}, "line": line}],
+                    "term": {"k": "call", "callee": "core::ops::FnMut::call_mut", "resolved": None, "cargs": [fty, {"k": "tuple", "elems": [aty]}], "rargs": [],
+                             "args": [{"k": "move", "place": {"local": cr, "proj": []}}, {"k": "move", "place": {"local": tup, "proj": []}}], "dest": {"local": rr, "proj": []},
+                             "target": C, "line": line}})
+                rec["blocks"].append({"stmts": [],
+                                      "term": {"k": "switch", "discr": {"k": "move", "place": {"local": rr, "proj": []}}, "dty": {"k": "bool"}, "arms": [[0, H]], "otherwise": E, "line": line}})
+                rec["blocks"].append({"stmts": [{"k": "assign", "place": copy.deepcopy(t["dest"]),
+                                                 "rv": {"k": "aggregate", "agg": "adt", "path": "core::option::Option", "variant": 1, "vname": "Some", "args": dty.get("args", []), "is_enum": True,
+                                                        "ops": [{"k": "move", "place": {"local": item, "proj": []}}]}, "line": line}],
+                                      "term": {"k": "goto", "target": t["target"]}})
+                rec["blocks"].append({"stmts": [], "term": {"k": "unreachable"}})
+                blk["term"] = {"k": "goto", "target": H}
+                stats.setdefault(rec["path"], []).append("desugar:find")
                 changed = True
                 continue
         if c in ("core::bool::<impl bool>::then", "core::bool::<impl bool>::then_some") and len(t["args"]) == 2 and not t["dest"]["proj"]:
